@@ -199,7 +199,7 @@ def do_reg(env, c):
     def sysfunc(cls, a):
         if (cls, a) not in sysfuncs:
             def f(arg=None, _a=a, _cls=cls):
-                log.append({'a': _a, 'arg': arg})
+                log.append({'a': _a, 'arg': -1 if arg is None else arg})
                 b = beh.get(_a, {'b': 'log'})
                 if b['b'] == 'rm':
                     syscls[_cls].remove(sysfunc(_cls, b['x']))
@@ -213,13 +213,13 @@ def do_reg(env, c):
     def srvfunc(cls, key, a):
         if (cls, key, a) not in srvfuncs:
             def f(server, arg=None, _a=a, _g=key):
-                log.append({'g': _g, 'a': _a, 'arg': arg, 'srv': keyname.get(id(server), '?')})
+                log.append({'g': _g, 'a': _a, 'arg': -1 if arg is None else arg, 'srv': keyname.get(id(server), '?')})
             srvfuncs[(cls, key, a)] = f
         return srvfuncs[(cls, key, a)]
 
     def ncact(act):
         def f(obj, msg, listener, arg=None):
-            log.append({'l': listener.name, 'act': act, 'obj': obj.name, 'msg': msg, 'arg': arg})
+            log.append({'l': listener.name, 'act': act, 'obj': obj.name, 'msg': msg, 'arg': -1 if arg is None else arg})
         return f
 
     ev = []
